@@ -48,7 +48,7 @@ var fnWhitelist = map[string][]string{
 		"Info.Validate", "Export.Validate", "isContainedIn", "Exports.Validate", "Exports.HasExportContainingSubject", "Mapping.Validate",
 		"CreateValidationResults", "ResponsePermission.Validate", "Permissions.Validate",
 		"OperatorLimits.IsEmpty", "OperatorLimits.Validate", "ExternalAuthorization.Validate",
-		"UserScope.Validate", "SigningKeys.Validate", "Account.Validate", "AccountClaims.Validate", "GenericClaims.Validate", "AuthorizationRequestClaims.Validate", "AuthorizationResponseClaims.Validate", "TimeRange.Validate", "Limits.Validate", "User.Validate", "UserClaims.Validate", "ParseServerVersion", "Operator.validateAccountServerURL", "ValidateOperatorServiceURL", "Operator.validateOperatorServiceURLs", "Operator.Validate", "OperatorClaims.Validate", "OperatorClaims.ExpectedPrefixes", "AccountClaims.ExpectedPrefixes", "UserClaims.ExpectedPrefixes", "ActivationClaims.ExpectedPrefixes", "AuthorizationRequestClaims.ExpectedPrefixes", "AuthorizationResponseClaims.ExpectedPrefixes", "GenericClaims.ExpectedPrefixes", "v1OperatorClaims.migrateV1", "v1UserClaims.migrateV1", "v1ActivationClaims.migrateV1", "SigningKeys.Add", "v1AccountClaims.migrateV1", "v1OperatorClaims.Migrate", "v1UserClaims.Migrate", "v1ActivationClaims.Migrate", "v1AccountClaims.Migrate", "loadOperator", "loadAccount", "loadUser", "loadActivation", "loadAuthorizationRequest", "loadAuthorizationResponse", "loadClaims", "ClaimsData.verify", "parseHeaders", "Decode", "UserClaims.Encode", "ActivationClaims.Encode", "OperatorClaims.Encode", "AccountClaims.Encode", "GenericClaims.Encode", "AuthorizationRequestClaims.Encode", "AuthorizationResponseClaims.Encode", "OperatorClaims.updateVersion", "AccountClaims.updateVersion", "UserClaims.updateVersion", "ActivationClaims.updateVersion", "AuthorizationRequestClaims.updateVersion", "AuthorizationResponseClaims.updateVersion", "DecodeOperatorClaims", "DecodeAccountClaims", "DecodeUserClaims", "DecodeAuthorizationRequestClaims", "DecodeAuthorizationResponseClaims", "UserScope.ValidateScopedSigner", "NewUserClaims", "UserClaims.SetScoped", "UserScope.SigningKey", "SigningKeys.AddScopedSigner", "SigningKeys.GetScope", "SigningKeys.Remove", "SigningKeys.Keys", "DecodeGeneric", "IssueUserJWT",
+		"UserScope.Validate", "SigningKeys.Validate", "Account.Validate", "AccountClaims.Validate", "GenericClaims.Validate", "AuthorizationRequestClaims.Validate", "AuthorizationResponseClaims.Validate", "TimeRange.Validate", "Limits.Validate", "User.Validate", "UserClaims.Validate", "ParseServerVersion", "Operator.validateAccountServerURL", "ValidateOperatorServiceURL", "Operator.validateOperatorServiceURLs", "Operator.Validate", "OperatorClaims.Validate", "OperatorClaims.ExpectedPrefixes", "AccountClaims.ExpectedPrefixes", "UserClaims.ExpectedPrefixes", "ActivationClaims.ExpectedPrefixes", "AuthorizationRequestClaims.ExpectedPrefixes", "AuthorizationResponseClaims.ExpectedPrefixes", "GenericClaims.ExpectedPrefixes", "v1OperatorClaims.migrateV1", "v1UserClaims.migrateV1", "v1ActivationClaims.migrateV1", "SigningKeys.Add", "v1AccountClaims.migrateV1", "v1OperatorClaims.Migrate", "v1UserClaims.Migrate", "v1ActivationClaims.Migrate", "v1AccountClaims.Migrate", "loadOperator", "loadAccount", "loadUser", "loadActivation", "loadAuthorizationRequest", "loadAuthorizationResponse", "loadClaims", "ClaimsData.verify", "parseHeaders", "Decode", "UserClaims.Encode", "ActivationClaims.Encode", "OperatorClaims.Encode", "AccountClaims.Encode", "GenericClaims.Encode", "AuthorizationRequestClaims.Encode", "AuthorizationResponseClaims.Encode", "OperatorClaims.updateVersion", "AccountClaims.updateVersion", "UserClaims.updateVersion", "ActivationClaims.updateVersion", "AuthorizationRequestClaims.updateVersion", "AuthorizationResponseClaims.updateVersion", "DecodeOperatorClaims", "DecodeAccountClaims", "DecodeUserClaims", "DecodeAuthorizationRequestClaims", "DecodeAuthorizationResponseClaims", "UserScope.ValidateScopedSigner", "NewUserClaims", "UserClaims.SetScoped", "UserScope.SigningKey", "SigningKeys.AddScopedSigner", "SigningKeys.GetScope", "SigningKeys.Remove", "SigningKeys.Keys", "DecodeGeneric", "IssueUserJWT", "Exports.Len", "Exports.Less", "Imports.Len", "Imports.Less",
 	},
 	"V1": {
 		"Subject.HasWildCards", "Subject.IsContainedIn", "cleanSubject",
@@ -936,6 +936,13 @@ func (c *fnCtx) expr(e ast.Expr) ex {
 	case *ast.SelectorExpr:
 		if sel, ok := c.g.p.TypesInfo.Selections[x]; ok && sel.Kind() == types.FieldVal {
 			a := c.expr(x.X)
+			// s[i].f on a slice whose elements are modelled as nilable: reading the element may panic (index), and
+			// selecting through a nil element panics too
+			if ix, isIx := ast.Unparen(x.X).(*ast.IndexExpr); isIx {
+				if sl, ok := c.typeOf(ix.X).Underlying().(*types.Slice); ok && c.g.nilableElem(sl.Elem()) && !c.rawPtr[a.s] {
+					a = ex{"(do (" + a.bind() + "))", true}
+				}
+			}
 			c.g.leanType(sel.Recv())
 			path := c.fieldPath(sel)
 			if c.selNilable(sel) {
@@ -1118,6 +1125,15 @@ func (c *fnCtx) binary(x *ast.BinaryExpr) ex {
 					}
 					return ex{"(do pure (" + inner + ").isSome)", true}
 				}
+				if ix, isIx := ast.Unparen(other).(*ast.IndexExpr); isIx && !c.rawPtr[a.s] {
+					// s[i] == nil on a slice whose elements are modelled as nilable: the element read itself may panic
+					if sl, ok := c.typeOf(ix.X).Underlying().(*types.Slice); ok && c.g.nilableElem(sl.Elem()) {
+						if x.Op == token.EQL {
+							return ex{"(do pure (" + a.bind() + ").isNone)", true}
+						}
+						return ex{"(do pure (" + a.bind() + ").isSome)", true}
+					}
+				}
 				if !c.rawPtr[a.s] {
 					unsup("nil comparison of a pointer that is not modelled as nilable")
 				}
@@ -1219,9 +1235,8 @@ func (c *fnCtx) binary(x *ast.BinaryExpr) ex {
 		unsup("binary %s", x.Op)
 	}
 	if x.Op == token.LSS || x.Op == token.LEQ || x.Op == token.GTR || x.Op == token.GEQ {
-		if isString(c.typeOf(x.X)) {
-			unsup("string ordering")
-		}
+		// string ordering: Go compares byte-wise; a model string is a list of code points (valid UTF-8 only), and
+		// UTF-8 preserves the lexicographic order of code points, so the list order is the byte order
 	}
 	if a.m || b.m {
 		return ex{"(do pure " + f(a.bind(), b.bind()) + ")", true}
